@@ -108,7 +108,7 @@ func (e *connEnv) runSession(reqs []creq, snapshotFS bool) string {
 
 // ---- generators ----
 
-var nameAlphabet = []string{"a", "b", "GAMES", "PS3ISO", "file.bin", "x.iso", "readme.txt", "Ünï", "with space", "UPPER.ISO", "dir1", "dir2", "sub", "z", "..x", "x..", ".hidden", "***DVD***x"}
+var nameAlphabet = []string{"with_space", "WITH SPACE", "a", "b", "GAMES", "PS3ISO", "file.bin", "x.iso", "readme.txt", "Ünï", "with space", "UPPER.ISO", "dir1", "dir2", "sub", "z", "..x", "x..", ".hidden", "***DVD***x"}
 
 func genName(r *rng) string {
 	if r.chance(6) {
